@@ -24,15 +24,25 @@ package main
 // The subscriber callback is the emitted `recv<Op>` pattern (header read, op-name check, payload read,
 // handler); the handler records (tag, `_opid` of the publisher, `_cid`, user header, payload).
 //
+// How the transports come into being is part of the case (c07SplitTr: every public entry point of lib/go —
+// the NATS subscriber factory builder with/without WithQueueLength/WithQueue, the plain factory constructors,
+// the per-transport constructors, both publisher entry points, the STOMP builders with their options), and a
+// case may hold SEVERAL subscriptions (2..4, on different topics and on the same topic) made from ONE
+// FScopeProvider, i.e. one subscriber factory; operations then carry the topic (`V7.2`) / subscription (`U1`).
+//
 // Driver lines:
 //   ps  <tr> <w> <delayUs> <ops>             every U is directly preceded by B: the outcome is determined,
 //                                            the model prints the same `unsub=… delivered=… cb=… err=…`
+//   pm  <tr> <w> <delayUs> <subs> <ops>      several subscriptions (topic index of each) from one provider, quiescent:
+//                                            the model is the PRODUCT of independent instances (c07_subscribers_independent)
+//                                            and prints `k=<n> <subscription 0> / <subscription 1> / …`
 //   psr <tr> <w> <delayUs> <observed> <ops>  U races the messages in flight: the model checks that the observed
 //                                            delivery list is admissible (everything before the last barrier,
 //                                            then a sub-sequence of what was in flight); output `ok`
 //
-// ORACLE (the property, evaluated on the real run, independent of the model):
-//   * a callback-delivered tag is a V published on the topic before U was called: never a foreign-topic,
+// ORACLE (the property, evaluated on the real run, independent of the model), PER SUBSCRIPTION:
+//   * a callback-delivered tag is a V published on ITS topic before its U was called: never a foreign-topic,
+//     another subscription's topic,
 //     malformed, wrong-op message or one published after U returned;
 //   * no tag twice; with one worker (and for STOMP) tags arrive in publish order;
 //   * every V published before a barrier is delivered (a subscriber that stays subscribed gets every
@@ -226,16 +236,37 @@ func c07Recv(op string, pf *frugal.FProtocolFactory, handler func(frugal.FContex
 // ---------- scenarios ----------
 
 type c07Operation struct {
-	kind byte // V R O G F B U
-	tag  int
-	raw  []byte
+	kind  byte // V R O G F B W U
+	tag   int
+	raw   []byte
+	topic int // V R O G: index of the topic it is published on
+	sub   int // U: index of the subscription
 }
 
+// c07Scn: one case. `tr` = transport and HOW its factories come into being (c07Connect), `subs` = the
+// topic index of every subscription made from the ONE provider (nil: the single-subscription lines
+// ps/psr, one subscription on topic 0).
 type c07Scn struct {
-	tr      string // nats | stomp
+	tr      string
 	w       int
 	delayUs int
+	subs    []int
 	ops     []c07Operation
+}
+
+func (s c07Scn) topics() []int {
+	if s.subs == nil {
+		return []int{0}
+	}
+	return s.subs
+}
+
+func (s c07Scn) subsArg() string {
+	p := make([]string, len(s.subs))
+	for i, t := range s.subs {
+		p[i] = strconv.Itoa(t)
+	}
+	return strings.Join(p, ",")
 }
 
 func (s c07Scn) opsArg() string {
@@ -244,18 +275,30 @@ func (s c07Scn) opsArg() string {
 	}
 	parts := make([]string, len(s.ops))
 	for i, o := range s.ops {
+		suffix := ""
+		if o.topic != 0 {
+			suffix = "." + strconv.Itoa(o.topic)
+		}
 		switch o.kind {
-		case 'B', 'U', 'W':
+		case 'B', 'W':
 			parts[i] = string(o.kind)
+		case 'U':
+			parts[i] = "U"
+			if o.sub != 0 {
+				parts[i] = "U" + strconv.Itoa(o.sub)
+			}
 		case 'R':
-			parts[i] = "R" + hx(o.raw)
+			parts[i] = "R" + hx(o.raw) + suffix
+		case 'F':
+			parts[i] = "F" + strconv.Itoa(o.tag)
 		default:
-			parts[i] = string(o.kind) + strconv.Itoa(o.tag)
+			parts[i] = string(o.kind) + strconv.Itoa(o.tag) + suffix
 		}
 	}
 	return strings.Join(parts, ",")
 }
 
+// ops syntax: V<tag>[.<topic>] O… G… R<hex>[.<topic>] F<tag> B W U[<sub>]
 func c07ParseOps(s string) ([]c07Operation, bool) {
 	if s == "." || s == "" {
 		return nil, true
@@ -265,20 +308,41 @@ func c07ParseOps(s string) ([]c07Operation, bool) {
 		if p == "" {
 			return nil, false
 		}
+		body, topic := p[1:], 0
+		if k := strings.IndexByte(body, '.'); k >= 0 && p[0] != 'B' && p[0] != 'W' && p[0] != 'U' && p[0] != 'F' {
+			t, err := strconv.Atoi(body[k+1:])
+			if err != nil || t < 0 || t > 64 {
+				return nil, false
+			}
+			body, topic = body[:k], t
+		}
 		switch p[0] {
-		case 'B', 'U', 'W':
+		case 'B', 'W':
 			if len(p) != 1 {
 				return nil, false
 			}
 			ops = append(ops, c07Operation{kind: p[0]})
+		case 'U':
+			k := 0
+			if body != "" {
+				n, err := strconv.Atoi(body)
+				if err != nil || n < 0 || n > 64 {
+					return nil, false
+				}
+				k = n
+			}
+			ops = append(ops, c07Operation{kind: 'U', sub: k})
 		case 'R':
-			ops = append(ops, c07Operation{kind: 'R', raw: unhx(p[1:])})
+			if body != "-" && (len(body)%2 != 0 || strings.Trim(body, "0123456789abcdef") != "") {
+				return nil, false
+			}
+			ops = append(ops, c07Operation{kind: 'R', raw: unhx(body), topic: topic})
 		case 'V', 'O', 'G', 'F':
-			n, err := strconv.Atoi(p[1:])
+			n, err := strconv.Atoi(body)
 			if err != nil || n < 0 {
 				return nil, false
 			}
-			ops = append(ops, c07Operation{kind: p[0], tag: n})
+			ops = append(ops, c07Operation{kind: p[0], tag: n, topic: topic})
 		default:
 			return nil, false
 		}
@@ -306,13 +370,29 @@ type c07Delivery struct {
 	bad string // "" or what differed from what was published
 }
 
-type c07Result struct {
-	known     string // id of a known finding this run ran into (the scenario is re-run)
-	where     string // where the transport's and the stomp client's goroutines are parked when Unsubscribe hangs
+// c07SubRes: what one subscription saw.
+type c07SubRes struct {
 	delivered []c07Delivery
 	cb, errs  int
 	unsub     string // none | ok | blocked | err
+}
+
+type c07Result struct {
+	known     string // id of a known finding this run ran into (the scenario is re-run)
+	where     string // where the transport's and the stomp client's goroutines are parked when Unsubscribe hangs
+	subs      []c07SubRes
+	delivered []c07Delivery // = subs[0] (single-subscription lines)
+	cb, errs  int
+	unsub     string // none | ok | blocked | err
 	fails     []string
+}
+
+func tagsOf(ds []c07Delivery) []int {
+	t := make([]int, len(ds))
+	for i, d := range ds {
+		t[i] = d.tag
+	}
+	return t
 }
 
 func (r *c07Result) tags() []int {
@@ -338,12 +418,84 @@ type c07Conns struct {
 	pubF    frugal.FPublisherTransportFactory
 	subF    frugal.FSubscriberTransportFactory
 	fence   func() error // returns once the broker has processed everything published so far
-	subSync func() error // returns once the broker has registered the subscription
+	subSync func() error // returns once the broker has registered the subscriptions made so far
 	close   func()
 }
 
+// Factories that reach the public per-transport constructors of lib/go.
+type c07PubCtor func() frugal.FPublisherTransport
+
+func (f c07PubCtor) GetTransport() frugal.FPublisherTransport { return f() }
+
+type c07SubCtor func() frugal.FSubscriberTransport
+
+func (f c07SubCtor) GetTransport() frugal.FSubscriberTransport { return f() }
+
+// c07Kinds: HOW the factories come into being — every public entry point of lib/go for pub/sub
+// transports. The transport name of a line is `<nats|stomp>[-<subscriber kind>][+<publisher kind>]`.
+//
+//	nats        NewFNatsSubscriberFactoryBuilder(c).WithWorkerCount(w).Build()
+//	nats-b<q>   … .WithQueueLength(q).WithWorkerCount(w).Build()
+//	nats-g      … .WithQueue(group).WithWorkerCount(w).Build()                      (queue group: distinct topics only)
+//	nats-f      NewFNatsSubscriberTransportFactory(c)                               (w = 1)
+//	nats-q      NewFNatsSubscriberTransportFactoryWithQueue(c, group)               (w = 1, distinct topics only)
+//	nats-d      NewNatsFSubscriberTransport(c) per subscription                     (w = 1)
+//	nats-e      NewNatsFSubscriberTransportWithQueue(c, group) per subscription     (w = 1, distinct topics only)
+//	…+d         publisher: NewNatsFPublisherTransport(c) per publisher instead of NewFNatsPublisherTransportFactory(c)
+//	stomp       NewFStomp{Publisher,Subscriber}TransportFactoryBuilder(c).Build()
+//	stomp-p     both .WithTopicPrefix("VT.")
+//	stomp-u     subscriber .WithUseQueues(false)
+//	…+m         publisher .WithMaxPublishSize(1 MiB)
+func c07SplitTr(tr string) (base, sk, pk string, ok bool) {
+	if k := strings.IndexByte(tr, '+'); k >= 0 {
+		tr, pk = tr[:k], tr[k+1:]
+	}
+	if k := strings.IndexByte(tr, '-'); k >= 0 {
+		tr, sk = tr[:k], tr[k+1:]
+	}
+	base = tr
+	switch base {
+	case "nats":
+		if pk != "" && pk != "d" {
+			return
+		}
+		switch {
+		case sk == "" || sk == "g" || sk == "f" || sk == "q" || sk == "d" || sk == "e":
+		case len(sk) >= 2 && sk[0] == 'b':
+			if n, err := strconv.Atoi(sk[1:]); err != nil || n < 0 || n > 4096 {
+				return
+			}
+		default:
+			return
+		}
+	case "stomp":
+		if (pk != "" && pk != "m") || (sk != "" && sk != "p" && sk != "u") {
+			return
+		}
+	default:
+		return
+	}
+	return base, sk, pk, true
+}
+
+// c07QueueGroup: the subscriber kind joins a NATS queue group (one member gets each message):
+// only meaningful here when no two subscriptions share a topic.
+func c07QueueGroup(tr string) bool {
+	_, sk, _, _ := c07SplitTr(tr)
+	return sk == "g" || sk == "q" || sk == "e"
+}
+
+func c07SingleWorker(tr string) bool {
+	base, sk, _, _ := c07SplitTr(tr)
+	return base == "stomp" || sk == "f" || sk == "q" || sk == "d" || sk == "e"
+}
+
 func c07Connect(tr string, w int) (*c07Conns, error) {
-	switch tr {
+	base, sk, pk, ok := c07SplitTr(tr)
+	if !ok {
+		return nil, fmt.Errorf("unknown transport %q", tr)
+	}
+	switch base {
 	case "nats":
 		url, err := c07Nats()
 		if err != nil {
@@ -358,9 +510,32 @@ func c07Connect(tr string, w int) (*c07Conns, error) {
 			pc.Close()
 			return nil, err
 		}
+		group := fmt.Sprintf("g%d.%d", os.Getpid(), atomic.AddUint64(&c07Seq, 1))
+		var subF frugal.FSubscriberTransportFactory
+		switch {
+		case sk == "":
+			subF = frugal.NewFNatsSubscriberFactoryBuilder(sc).WithWorkerCount(uint(w)).Build()
+		case sk[0] == 'b':
+			q, _ := strconv.Atoi(sk[1:])
+			subF = frugal.NewFNatsSubscriberFactoryBuilder(sc).WithQueueLength(uint(q)).WithWorkerCount(uint(w)).Build()
+		case sk == "g":
+			subF = frugal.NewFNatsSubscriberFactoryBuilder(sc).WithQueue(group).WithWorkerCount(uint(w)).Build()
+		case sk == "f":
+			subF = frugal.NewFNatsSubscriberTransportFactory(sc)
+		case sk == "q":
+			subF = frugal.NewFNatsSubscriberTransportFactoryWithQueue(sc, group)
+		case sk == "d":
+			subF = c07SubCtor(func() frugal.FSubscriberTransport { return frugal.NewNatsFSubscriberTransport(sc) })
+		case sk == "e":
+			subF = c07SubCtor(func() frugal.FSubscriberTransport { return frugal.NewNatsFSubscriberTransportWithQueue(sc, group) })
+		}
+		var pubF frugal.FPublisherTransportFactory = frugal.NewFNatsPublisherTransportFactory(pc)
+		if pk == "d" {
+			pubF = c07PubCtor(func() frugal.FPublisherTransport { return frugal.NewNatsFPublisherTransport(pc) })
+		}
 		return &c07Conns{
-			pubF:    frugal.NewFNatsPublisherTransportFactory(pc),
-			subF:    frugal.NewFNatsSubscriberFactoryBuilder(sc).WithWorkerCount(uint(w)).Build(),
+			pubF:    pubF,
+			subF:    subF,
 			fence:   func() error { return pc.FlushTimeout(c07Watchdog) },
 			subSync: func() error { return nil }, // Subscribe flushes the SUB itself
 			close:   func() { pc.Close(); sc.Close() },
@@ -402,12 +577,23 @@ func c07Connect(tr string, w int) (*c07Conns, error) {
 				return err
 			}
 		}
+		pb := frugal.NewFStompPublisherTransportFactoryBuilder(pc)
+		sb := frugal.NewFStompSubscriberTransportFactoryBuilder(sc)
+		if sk == "p" {
+			pb, sb = pb.WithTopicPrefix("VT."), sb.WithTopicPrefix("VT.")
+		}
+		if sk == "u" {
+			sb = sb.WithUseQueues(false)
+		}
+		if pk == "m" {
+			pb = pb.WithMaxPublishSize(1 << 20)
+		}
 		return &c07Conns{
-			pubF:  frugal.NewFStompPublisherTransportFactoryBuilder(pc).Build(),
-			subF:  frugal.NewFStompSubscriberTransportFactoryBuilder(sc).Build(),
+			pubF:  pb.Build(),
+			subF:  sb.Build(),
 			fence: receipt(pc),
 			// the broker handles one connection's frames in order and queues SUBSCRIBE before it
-			// answers the SEND that follows it: after the receipt the subscription precedes every
+			// answers the SEND that follows it: after the receipt the subscriptions precede every
 			// later publish in the broker's request queue
 			subSync: receipt(sc),
 			// closing the sockets (not Disconnect: a wedged client loop would block it)
@@ -434,21 +620,24 @@ const c07KnownLostWakeup = "gostomp-unsubscribe-lost-wakeup"
 // Subscription.Unsubscribe that has just tested the state and not yet parked in closeCond.Wait() misses
 // the wake-up and waits forever although the subscription IS closed. Signature: a goroutine parked in
 // sync.(*Cond).Wait under stomp.(*Subscription).Unsubscribe while no stomp.(*Subscription).readLoop
-// goroutine exists any more (it has processed the RECEIPT and returned). In frugal's own hang (DESIGN §8
-// row 17) the readLoop is alive, blocked on its send to sub.C.
-func c07LostWakeup() bool {
+// goroutine exists any more FOR THAT SUBSCRIPTION (it has processed the RECEIPT and returned; with several
+// subscriptions on the connection: fewer readLoops than subscriptions still to be closed). In frugal's own
+// hang (DESIGN §8 row 17) the readLoop is alive, blocked on its send to sub.C.
+func c07LostWakeup(liveSubs int) bool {
 	buf := make([]byte, 1<<20)
 	buf = buf[:runtime.Stack(buf, true)]
-	waiting := false
+	waiting, loops := 0, 0
 	for _, g := range strings.Split(string(buf), "\n\n") {
 		if strings.Contains(g, "stomp.(*Subscription).readLoop") {
-			return false
+			loops++
 		}
 		if strings.Contains(g, "sync.(*Cond).Wait") && strings.Contains(g, "stomp.(*Subscription).Unsubscribe") {
-			waiting = true
+			waiting++
 		}
 	}
-	return waiting
+	// liveSubs = subscriptions of this scenario not yet unsubscribed, the hanging one included: every one of
+	// them has a readLoop unless it has already processed its RECEIPT
+	return waiting > 0 && loops < liveSubs
 }
 
 // c07Stacks lists, per goroutine that is inside lib/go or the stomp client, the innermost frames
@@ -514,73 +703,109 @@ func c07Stalled(progress *int64, f func()) string {
 	}
 }
 
-// c07Run executes one scenario against the real transports and evaluates the oracle.
+// c07Run executes one scenario against the real transports and evaluates the oracle, per subscription.
+// All subscriptions are made from ONE FScopeProvider (one publisher factory, one subscriber factory).
 func c07Run(s c07Scn) *c07Result {
 	res := &c07Result{unsub: "none"}
 	fail := func(f string, a ...interface{}) { res.fails = append(res.fails, fmt.Sprintf(f, a...)) }
-	if s.w < 1 || s.w > 8 || (s.tr == "stomp" && s.w != 1) {
+	base, _, _, okTr := c07SplitTr(s.tr)
+	topicIDs := s.topics()
+	if !okTr || s.w < 1 || s.w > 8 || (c07SingleWorker(s.tr) && s.w != 1) || len(topicIDs) < 1 || len(topicIDs) > 8 {
 		fail("bad-config")
 		return res
 	}
+	if c07QueueGroup(s.tr) {
+		seenT := map[int]bool{}
+		for _, t := range topicIDs {
+			if seenT[t] {
+				fail("bad-config")
+				return res
+			}
+			seenT[t] = true
+		}
+	}
+	_ = base
 	conns, err := c07Connect(s.tr, s.w)
 	if err != nil {
 		fail("harness: cannot connect: %v", err)
 		return res
 	}
 	defer conns.close()
-	topic := fmt.Sprintf("c07.p%d.s%d", os.Getpid(), atomic.AddUint64(&c07Seq, 1))
+	baseTopic := fmt.Sprintf("c07.p%d.s%d", os.Getpid(), atomic.AddUint64(&c07Seq, 1))
+	topicName := func(id int) string { return fmt.Sprintf("%s.t%d", baseTopic, id) }
 	provider := frugal.NewFScopeProvider(conns.pubF, conns.subF, binFactory)
 
 	var mu sync.Mutex
 	type pubInfo struct{ opid string }
 	published := map[int]pubInfo{}
-	var cbCount, errCount, startCount, startSeen int64
-	handler := func(fctx frugal.FContext, p *c07Payload) error {
-		tag := int(p.Tag)
-		bad := ""
-		if !bytes.Equal(p.Blob, c07Blob(tag)) {
-			bad = "payload"
-		}
-		if fctx.CorrelationID() != fmt.Sprintf("cid-%d", tag) {
-			bad += "+cid"
-		}
-		if v, _ := fctx.RequestHeader("k"); v != fmt.Sprintf("v%d", tag) {
-			bad += "+header"
-		}
-		op, _ := fctx.ResponseHeader("_opid")
-		mu.Lock()
-		if pi, ok := published[tag]; ok && pi.opid != op {
-			bad += "+opid"
-		}
-		res.delivered = append(res.delivered, c07Delivery{tag, bad})
-		mu.Unlock()
-		if s.delayUs > 0 {
-			time.Sleep(time.Duration(s.delayUs) * time.Microsecond)
-		}
-		return nil
+	var cbTotal, startCount, startSeen int64 // over all subscriptions: progress / "somebody is busy"
+
+	type subState struct {
+		topicID    int
+		tr         frugal.FSubscriberTransport
+		delivered  []c07Delivery
+		cb, errs   int64
+		owed       int64        // callbacks owed so far (messages on its topic with >= 4 bytes, while subscribed)
+		valid      []int        // V tags published on its topic while subscribed, in order
+		must       map[int]bool // … before a barrier
+		subscribed bool
+		unsub      string
 	}
-	inner := c07Recv(c07Op, binFactory, handler)
-	cb := func(tr thrift.TTransport) error {
-		atomic.AddInt64(&startCount, 1)
-		err := inner(tr)
-		if err != nil {
-			atomic.AddInt64(&errCount, 1)
+	subs := make([]*subState, len(topicIDs))
+	for k, tid := range topicIDs {
+		st := &subState{topicID: tid, must: map[int]bool{}, unsub: "none"}
+		subs[k] = st
+		handler := func(fctx frugal.FContext, p *c07Payload) error {
+			tag := int(p.Tag)
+			bad := ""
+			if !bytes.Equal(p.Blob, c07Blob(tag)) {
+				bad = "payload"
+			}
+			if fctx.CorrelationID() != fmt.Sprintf("cid-%d", tag) {
+				bad += "+cid"
+			}
+			if v, _ := fctx.RequestHeader("k"); v != fmt.Sprintf("v%d", tag) {
+				bad += "+header"
+			}
+			op, _ := fctx.ResponseHeader("_opid")
+			mu.Lock()
+			if pi, ok := published[tag]; ok && pi.opid != op {
+				bad += "+opid"
+			}
+			st.delivered = append(st.delivered, c07Delivery{tag, bad})
+			mu.Unlock()
+			if s.delayUs > 0 {
+				time.Sleep(time.Duration(s.delayUs) * time.Microsecond)
+			}
+			return nil
 		}
-		atomic.AddInt64(&cbCount, 1)
-		return err
-	}
-	sub, _ := provider.NewSubscriber()
-	var subErr error
-	if o := guard(c07Watchdog, func() { subErr = sub.Subscribe(topic, cb) }); o != "" || subErr != nil {
-		fail("Subscribe failed: %s %v", o, subErr)
-		return res
+		inner := c07Recv(c07Op, binFactory, handler)
+		cb := func(tr thrift.TTransport) error {
+			atomic.AddInt64(&startCount, 1)
+			err := inner(tr)
+			if err != nil {
+				atomic.AddInt64(&st.errs, 1)
+			}
+			atomic.AddInt64(&st.cb, 1)
+			atomic.AddInt64(&cbTotal, 1)
+			return err
+		}
+		st.tr, _ = provider.NewSubscriber()
+		var subErr error
+		if o := guard(c07Watchdog, func() { subErr = st.tr.Subscribe(topicName(tid), cb) }); o != "" || subErr != nil {
+			fail("Subscribe %d failed: %s %v", k, o, subErr)
+			return res
+		}
+		st.subscribed = true
 	}
 	if err := conns.subSync(); err != nil {
 		fail("harness: %v", err)
 		return res
 	}
-	if !sub.IsSubscribed() {
-		fail("IsSubscribed false after Subscribe")
+	for k, st := range subs {
+		if !st.tr.IsSubscribed() {
+			fail("IsSubscribed false after Subscribe (subscription %d)", k)
+		}
 	}
 	client := frugal.NewFScopeClient(provider)
 	rawPub := conns.pubF.GetTransport()
@@ -601,53 +826,64 @@ func c07Run(s c07Scn) *c07Result {
 			fail("Publish returned %v", err)
 		}
 	}
-
-	owedCb := int64(0)     // callbacks owed so far (messages on the topic with >= 4 bytes, while subscribed)
-	var valid []int        // V tags published while subscribed (before U was called), in order
-	must := map[int]bool{} // V tags published before a barrier
-	subscribed := true
-	barrier := func() {
-		if !subscribed {
-			return
-		}
-		deadline := time.Now().Add(c07Watchdog)
-		for atomic.LoadInt64(&cbCount) < owedCb && time.Now().Before(deadline) {
-			time.Sleep(100 * time.Microsecond)
-		}
-		if got := atomic.LoadInt64(&cbCount); got < owedCb {
-			fail("a subscribed transport did not hand over every message: %d of %d callbacks ran within the watchdog", got, owedCb)
-		}
-		for _, t := range valid {
-			must[t] = true
+	// what a message on topic `tid` owes to every subscription on that topic
+	owe := func(tid int, validTag int, callback bool) {
+		for _, st := range subs {
+			if st.topicID == tid && st.subscribed {
+				if validTag >= 0 {
+					st.valid = append(st.valid, validTag)
+				}
+				if callback {
+					st.owed++
+				}
+			}
 		}
 	}
+	barrier := func() {
+		deadline := time.Now().Add(c07Watchdog)
+		for k, st := range subs {
+			if !st.subscribed {
+				continue
+			}
+			for atomic.LoadInt64(&st.cb) < st.owed && time.Now().Before(deadline) {
+				time.Sleep(100 * time.Microsecond)
+			}
+			if got := atomic.LoadInt64(&st.cb); got < st.owed {
+				fail("a subscribed transport did not hand over every message: %d of %d callbacks ran within the watchdog (subscription %d)", got, st.owed, k)
+			}
+			for _, t := range st.valid {
+				st.must[t] = true
+			}
+		}
+	}
+	liveSubs := func() int { // subscriptions whose go-stomp readLoop must still exist (call BEFORE marking one unsubscribed)
+		n := 0
+		for _, st := range subs {
+			if st.subscribed {
+				n++
+			}
+		}
+		return n
+	}
+	wedged := false
 	for _, o := range s.ops {
 		switch o.kind {
 		case 'V':
-			publish(topic, c07Op, o.tag, false)
-			if subscribed {
-				valid = append(valid, o.tag)
-				owedCb++
-			}
+			publish(topicName(o.topic), c07Op, o.tag, false)
+			owe(o.topic, o.tag, true)
 		case 'O':
-			publish(topic, c07OtherOp, o.tag, false)
-			if subscribed {
-				owedCb++
-			}
+			publish(topicName(o.topic), c07OtherOp, o.tag, false)
+			owe(o.topic, -1, true)
 		case 'G':
-			publish(topic, c07Op, o.tag, true)
-			if subscribed {
-				owedCb++
-			}
+			publish(topicName(o.topic), c07Op, o.tag, true)
+			owe(o.topic, -1, true)
 		case 'F':
-			publish(c07Foreign(topic, o.tag), c07Op, o.tag, false)
+			publish(c07Foreign(topicName(0), o.tag), c07Op, o.tag, false)
 		case 'R':
-			if err := rawPub.Publish(topic, exact(o.raw)); err != nil {
+			if err := rawPub.Publish(topicName(o.topic), exact(o.raw)); err != nil {
 				fail("raw Publish returned %v", err)
 			}
-			if subscribed && len(o.raw) >= 4 {
-				owedCb++
-			}
+			owe(o.topic, -1, len(o.raw) >= 4)
 		case 'B':
 			barrier()
 			startSeen = atomic.LoadInt64(&startCount)
@@ -658,52 +894,67 @@ func c07Run(s c07Scn) *c07Result {
 			}
 			startSeen = atomic.LoadInt64(&startCount)
 		case 'U':
-			if !subscribed {
+			if o.sub >= len(subs) {
+				fail("bad-config")
+				continue
+			}
+			st := subs[o.sub]
+			if !st.subscribed {
 				// a second Unsubscribe is a no-op that must return as well
 				var e error
-				if o := guard(c07Watchdog, func() { e = sub.Unsubscribe() }); o != "" || e != nil {
+				if o := guard(c07Watchdog, func() { e = st.tr.Unsubscribe() }); o != "" || e != nil {
 					fail("second Unsubscribe: %s %v", o, e)
 				}
 				continue
 			}
-			subscribed = false
+			live := liveSubs()
+			st.subscribed = false
 			var uerr error
 			isC := make(chan string, 1)
 			go func() {
 				time.Sleep(200 * time.Microsecond)
-				isC <- c07Stalled(&cbCount, func() { sub.IsSubscribed() })
+				isC <- c07Stalled(&cbTotal, func() { st.tr.IsSubscribed() })
 			}()
-			o := c07Stalled(&cbCount, func() { uerr = sub.Unsubscribe() })
+			out := c07Stalled(&cbTotal, func() { uerr = st.tr.Unsubscribe() })
 			switch {
-			case o == "blocked":
-				res.unsub = "blocked"
+			case out == "blocked":
+				st.unsub = "blocked"
 				res.where = c07Stacks()
-				if c07LostWakeup() {
+				if c07LostWakeup(live) {
 					// not frugal's: KNOWN_FINDINGS gostomp-unsubscribe-lost-wakeup
 					res.known = c07KnownLostWakeup
 				} else {
 					fail("Unsubscribe did not return (no progress within the watchdog)")
 				}
-			case o != "":
-				res.unsub = o
-				fail("Unsubscribe %s", o)
+			case out != "":
+				st.unsub = out
+				fail("Unsubscribe %s", out)
 			case uerr != nil:
-				res.unsub = "err"
+				st.unsub = "err"
 				fail("Unsubscribe returned %v", uerr)
 			default:
-				res.unsub = "ok"
+				st.unsub = "ok"
 			}
 			if io := <-isC; io != "" && res.known == "" {
 				fail("IsSubscribed %s while Unsubscribe was running", io)
 			}
-			if res.unsub == "ok" {
+			if st.unsub == "ok" {
 				still := true
-				if o := guard(c07Watchdog, func() { still = sub.IsSubscribed() }); o != "" || still {
+				if o := guard(c07Watchdog, func() { still = st.tr.IsSubscribed() }); o != "" || still {
 					fail("IsSubscribed after Unsubscribe: %s %v", o, still)
 				}
+				// the other subscriptions of the provider are untouched
+				for k2, other := range subs {
+					if other != st && other.subscribed && !other.tr.IsSubscribed() {
+						fail("Unsubscribe of one subscription ended subscription %d of the same provider", k2)
+					}
+				}
+			}
+			if st.unsub == "blocked" {
+				wedged = true
 			}
 		}
-		if res.unsub == "blocked" || res.known != "" {
+		if wedged || res.known != "" {
 			break // the subscriber transport is wedged; nothing after this is meaningful
 		}
 	}
@@ -712,61 +963,100 @@ func c07Run(s c07Scn) *c07Result {
 	if err := conns.fence(); err != nil {
 		fail("harness: fence: %v", err)
 	}
-	barrier()
+	if !wedged && res.known == "" {
+		barrier()
+	}
 	time.Sleep(c07Grace + time.Duration(s.delayUs)*time.Microsecond)
-	if subscribed && res.known == "" {
-		var e error
-		o := c07Stalled(&cbCount, func() { e = sub.Unsubscribe() })
-		if o == "blocked" && c07LostWakeup() {
-			res.where = c07Stacks()
-			res.known = c07KnownLostWakeup
-		} else if o != "" || e != nil {
-			fail("final Unsubscribe: %s %v", o, e)
+	for _, st := range subs {
+		if st.subscribed && res.known == "" && !wedged {
+			var e error
+			live := liveSubs()
+			st.subscribed = false
+			o := c07Stalled(&cbTotal, func() { e = st.tr.Unsubscribe() })
+			if o == "blocked" {
+				res.where = c07Stacks()
+			}
+			if o == "blocked" && c07LostWakeup(live) {
+				res.known = c07KnownLostWakeup
+			} else if o != "" || e != nil {
+				fail("final Unsubscribe: %s %v", o, e)
+				wedged = true
+			}
 		}
 	}
 	mu.Lock()
-	res.cb, res.errs = int(atomic.LoadInt64(&cbCount)), int(atomic.LoadInt64(&errCount))
-	delivered := append([]c07Delivery{}, res.delivered...)
-	res.delivered = delivered
+	res.subs = make([]c07SubRes, len(subs))
+	for k, st := range subs {
+		res.subs[k] = c07SubRes{delivered: append([]c07Delivery{}, st.delivered...), cb: int(atomic.LoadInt64(&st.cb)), errs: int(atomic.LoadInt64(&st.errs)), unsub: st.unsub}
+	}
 	mu.Unlock()
+	res.delivered, res.cb, res.errs, res.unsub = res.subs[0].delivered, res.subs[0].cb, res.subs[0].errs, res.subs[0].unsub
 
-	// ---- oracle on the delivery list
-	validSet := map[int]int{}
-	for i, t := range valid {
-		validSet[t] = i
-	}
-	seen := map[int]bool{}
-	last := -1
-	for _, d := range delivered {
-		idx, ok := validSet[d.tag]
-		if !ok {
-			fail("handler invoked for tag %d, which is not a valid message published on the topic while subscribed (foreign topic / malformed / wrong operation / after Unsubscribe)", d.tag)
-			continue
+	// ---- oracle on every subscription's delivery list
+	for k, st := range subs {
+		who := ""
+		if len(subs) > 1 {
+			who = fmt.Sprintf(" (subscription %d, topic %d)", k, st.topicID)
 		}
-		if seen[d.tag] {
-			fail("message %d delivered twice", d.tag)
+		validSet := map[int]int{}
+		for i, t := range st.valid {
+			validSet[t] = i
 		}
-		seen[d.tag] = true
-		if d.bad != "" {
-			fail("message %d delivered with different %s", d.tag, d.bad)
-		}
-		if s.w == 1 {
-			if idx < last {
-				fail("single-worker subscriber delivered message %d out of publish order", d.tag)
+		seen := map[int]bool{}
+		last := -1
+		for _, d := range res.subs[k].delivered {
+			idx, ok := validSet[d.tag]
+			if !ok {
+				fail("handler invoked for tag %d, which is not a valid message published on the subscription's topic while subscribed (foreign topic / another subscription's topic / malformed / wrong operation / after Unsubscribe)%s", d.tag, who)
+				continue
 			}
-			last = idx
+			if seen[d.tag] {
+				fail("message %d delivered twice%s", d.tag, who)
+			}
+			seen[d.tag] = true
+			if d.bad != "" {
+				fail("message %d delivered with different %s%s", d.tag, d.bad, who)
+			}
+			if s.w == 1 {
+				if idx < last {
+					fail("single-worker subscriber delivered message %d out of publish order%s", d.tag, who)
+				}
+				last = idx
+			}
 		}
-	}
-	for _, t := range valid {
-		if must[t] && !seen[t] {
-			fail("valid message %d, published while subscribed and before a barrier, was never delivered", t)
+		for _, t := range st.valid {
+			if st.must[t] && !seen[t] {
+				fail("valid message %d, published while subscribed and before a barrier, was never delivered%s", t, who)
+			}
 		}
 	}
 	return res
 }
 
+func (s c07Scn) subLine(r c07SubRes) string {
+	t := tagsOf(r.delivered)
+	if s.w > 1 {
+		sort.Ints(t)
+	}
+	return fmt.Sprintf("unsub=%s delivered=%s cb=%d err=%d", r.unsub, tagsArg(t), r.cb, r.errs)
+}
+
 func (s c07Scn) line(res *c07Result) (string, string) {
-	t := res.tags()
+	if s.subs != nil {
+		// several subscriptions from one provider: `pm <tr> <w> <delayUs> <subs> <ops>` (quiescent only)
+		line := fmt.Sprintf("pm %s %d %d %s %s", s.tr, s.w, s.delayUs, s.subsArg(), s.opsArg())
+		if s.racing() {
+			return line, "racing"
+		}
+		parts := make([]string, len(res.subs))
+		for k, r := range res.subs {
+			parts[k] = s.subLine(r)
+		}
+		if len(parts) == 0 {
+			return line, "k=0"
+		}
+		return line, fmt.Sprintf("k=%d %s", len(parts), strings.Join(parts, " / "))
+	}
 	if s.racing() {
 		real := "ok"
 		if len(res.fails) > 0 {
@@ -775,13 +1065,12 @@ func (s c07Scn) line(res *c07Result) (string, string) {
 				real = "unsub=blocked"
 			}
 		}
-		return fmt.Sprintf("psr %s %d %d %s %s", s.tr, s.w, s.delayUs, tagsArg(t), s.opsArg()), real
+		return fmt.Sprintf("psr %s %d %d %s %s", s.tr, s.w, s.delayUs, tagsArg(tagsOf(res.delivered)), s.opsArg()), real
 	}
-	if s.w > 1 {
-		sort.Ints(t)
+	if len(res.subs) == 0 {
+		return fmt.Sprintf("ps %s %d %d %s", s.tr, s.w, s.delayUs, s.opsArg()), "bad-config"
 	}
-	return fmt.Sprintf("ps %s %d %d %s", s.tr, s.w, s.delayUs, s.opsArg()),
-		fmt.Sprintf("unsub=%s delivered=%s cb=%d err=%d", res.unsub, tagsArg(t), res.cb, res.errs)
+	return fmt.Sprintf("ps %s %d %d %s", s.tr, s.w, s.delayUs, s.opsArg()), s.subLine(res.subs[0])
 }
 
 // ---------- generation ----------
@@ -807,11 +1096,106 @@ func c07RawMsg(r *Rng) []byte {
 	return fr
 }
 
-func c07Gen(r *Rng) c07Scn {
-	s := c07Scn{tr: "nats", w: 1 + r.Intn(4)}
+var c07NatsMulti = []string{"", "", "b0", "b1", "b5", "b64", "g", "f", "q", "d", "e"}
+
+// c07GenTr draws how the transports come into being (all public entry points, see c07SplitTr).
+func c07GenTr(r *Rng, distinctTopics bool) (string, int) {
 	if r.Chance(45) {
-		s.tr, s.w = "stomp", 1
+		tr := "stomp" + []string{"", "", "-p", "-u"}[r.Intn(4)]
+		if r.Chance(25) {
+			tr += "+m"
+		}
+		return tr, 1
 	}
+	sk := c07NatsMulti[r.Intn(len(c07NatsMulti))]
+	tr := "nats"
+	if sk != "" {
+		tr += "-" + sk
+	}
+	if !distinctTopics && c07QueueGroup(tr) {
+		tr = "nats-b" + strconv.Itoa(r.Pick(0, 1, 5, 64))
+	}
+	w := 1 + r.Intn(4)
+	if c07SingleWorker(tr) {
+		w = 1
+	}
+	if r.Chance(25) {
+		tr += "+d"
+	}
+	return tr, w
+}
+
+// c07GenMulti: 2..4 subscriptions from one provider, on different topics and on the same topic;
+// traffic on every topic interleaved; some subscriptions are unsubscribed (after a barrier) while
+// the others go on.
+func c07GenMulti(r *Rng) c07Scn {
+	k := 2 + r.Intn(3)
+	nTopics := 1 + r.Intn(k)
+	if r.Chance(50) {
+		nTopics = k
+	}
+	s := c07Scn{subs: make([]int, k)}
+	distinct := nTopics == k
+	for i := range s.subs {
+		if distinct {
+			s.subs[i] = i
+		} else {
+			s.subs[i] = r.Intn(nTopics)
+		}
+	}
+	if !distinct {
+		seen := map[int]bool{}
+		distinct = true
+		for _, t := range s.subs {
+			if seen[t] {
+				distinct = false
+			}
+			seen[t] = true
+		}
+	}
+	s.tr, s.w = c07GenTr(r, distinct)
+	s.delayUs = r.Pick(0, 0, 0, 50, 300)
+	n := 4 + r.Intn(20)
+	tag := 0
+	alive := make([]bool, k)
+	for i := range alive {
+		alive[i] = true
+	}
+	for i := 0; i < n; i++ {
+		tag++
+		t := r.Intn(nTopics + 1) // nTopics = a topic nobody subscribed to
+		if t == nTopics && !r.Chance(30) {
+			t = r.Intn(nTopics)
+		}
+		c := r.Intn(100)
+		switch {
+		case c < 58:
+			s.ops = append(s.ops, c07Operation{kind: 'V', tag: tag, topic: t})
+		case c < 70:
+			s.ops = append(s.ops, c07Operation{kind: 'R', raw: c07RawMsg(r), topic: t})
+		case c < 76:
+			s.ops = append(s.ops, c07Operation{kind: 'O', tag: tag, topic: t})
+		case c < 80:
+			s.ops = append(s.ops, c07Operation{kind: 'G', tag: tag, topic: t})
+		case c < 86:
+			s.ops = append(s.ops, c07Operation{kind: 'F', tag: tag})
+		case c < 92:
+			s.ops = append(s.ops, c07Operation{kind: 'B'})
+		default:
+			u := r.Intn(k)
+			s.ops = append(s.ops, c07Operation{kind: 'B'}, c07Operation{kind: 'U', sub: u})
+			alive[u] = false
+		}
+	}
+	return s
+}
+
+func c07Gen(r *Rng) c07Scn {
+	if r.Chance(40) {
+		return c07GenMulti(r)
+	}
+	s := c07Scn{}
+	s.tr, s.w = c07GenTr(r, true)
 	s.delayUs = r.Pick(0, 0, 0, 50, 300)
 	racing := r.Chance(35)
 	burst := racing && r.Chance(40)
@@ -893,20 +1277,39 @@ type c07Out struct {
 }
 
 func (s c07Scn) childLine() string {
+	if s.subs != nil {
+		return fmt.Sprintf("%s %d %d %s %s", s.tr, s.w, s.delayUs, s.subsArg(), s.opsArg())
+	}
 	return fmt.Sprintf("%s %d %d %s", s.tr, s.w, s.delayUs, s.opsArg())
 }
 
+// c07ParseScn: `<tr> <w> <delayUs> [<subs>] <ops>`.
 func c07ParseScn(args []string) (c07Scn, bool) {
-	if len(args) != 4 {
+	if len(args) != 4 && len(args) != 5 {
 		return c07Scn{}, false
 	}
 	w, e1 := strconv.Atoi(args[1])
 	d, e2 := strconv.Atoi(args[2])
-	ops, ok := c07ParseOps(args[3])
-	if e1 != nil || e2 != nil || !ok || (args[0] != "nats" && args[0] != "stomp") || d < 0 || d > 100000 {
+	ops, ok := c07ParseOps(args[len(args)-1])
+	_, _, _, okTr := c07SplitTr(args[0])
+	if e1 != nil || e2 != nil || !ok || !okTr || d < 0 || d > 100000 {
 		return c07Scn{}, false
 	}
-	return c07Scn{tr: args[0], w: w, delayUs: d, ops: ops}, true
+	s := c07Scn{tr: args[0], w: w, delayUs: d, ops: ops}
+	if len(args) == 5 {
+		s.subs = []int{}
+		for _, p := range strings.Split(args[3], ",") {
+			t, err := strconv.Atoi(p)
+			if err != nil || t < 0 || t > 64 {
+				return c07Scn{}, false
+			}
+			s.subs = append(s.subs, t)
+		}
+		if len(s.subs) > 8 {
+			return c07Scn{}, false
+		}
+	}
+	return s, true
 }
 
 func runC07Child(r *Rng, n int) {
@@ -994,7 +1397,9 @@ func c07Chunk(scns []c07Scn, outs []c07Out) {
 			}
 			s := scns[next]
 			line := fmt.Sprintf("ps %s", s.childLine())
-			if s.racing() {
+			if s.subs != nil {
+				line = fmt.Sprintf("pm %s", s.childLine())
+			} else if s.racing() {
 				line = fmt.Sprintf("psr %s %d %d - %s", s.tr, s.w, s.delayUs, s.opsArg())
 			}
 			outs[next] = c07Out{Line: line, Real: "crashed", Unsub: "crashed",
@@ -1035,6 +1440,18 @@ func c07Report(s c07Scn, o c07Out) {
 	Stat("evaluations")
 	Stat("transport:" + s.tr)
 	Stat(fmt.Sprintf("workers:%d", s.w))
+	Stat(fmt.Sprintf("subscriptions-from-one-provider:%d", len(s.topics())))
+	if s.subs != nil {
+		d := map[int]bool{}
+		for _, t := range s.subs {
+			d[t] = true
+		}
+		if len(d) < len(s.subs) {
+			Stat("multi:some-share-a-topic")
+		} else {
+			Stat("multi:distinct-topics")
+		}
+	}
 	if s.racing() {
 		Stat("shape:unsubscribe-races-inflight")
 	} else {
@@ -1125,6 +1542,9 @@ func c07ReplayLine(op string, args []string) (string, bool) {
 		}
 		args = append(append([]string{}, args[:3]...), args[4])
 	}
+	if (op == "pm") != (len(args) == 5) {
+		return "bad-args", true
+	}
 	s, ok := c07ParseScn(args)
 	if !ok {
 		return "bad-args", true
@@ -1151,4 +1571,5 @@ func init() {
 	suites["c07child"] = runC07Child
 	lineOps["ps"] = func(args []string) (string, bool) { return c07ReplayLine("ps", args) }
 	lineOps["psr"] = func(args []string) (string, bool) { return c07ReplayLine("psr", args) }
+	lineOps["pm"] = func(args []string) (string, bool) { return c07ReplayLine("pm", args) }
 }
